@@ -93,25 +93,6 @@ theorem lineage_columns (R : Rel) : (mkLineage (number R 1) Lineage.empty).allCo
 
 /-! ## INSERT … SELECT: pairing by position -/
 
-/-- the i-th target column (explicit list) receives the sources of the i-th output column; a different number of columns is refused.
-(Target column names pairwise distinct: the result object is keyed by the target column's name.) -/
-theorem insert_pairing (cat : Cat) (h : InsertHead) (cs : List (Option String × String)) (hc : h.columns = some cs)
-    (q : Query) (R : Rel) (hsel : ∃ st', selectLineage cat (fuelFor (setWiths h.withs q)) (setWiths h.withs q) {} =
-      .ok (mkLineage (number R 1) Lineage.empty, st')) :
-    (cs.length ≠ R.length → insertLineage cat h q {} = .error .analyzer) := by
-  intro hlen
-  obtain ⟨st', e⟩ := hsel
-  simp only [insertLineage, hc, bind, Except.bind, pure, Except.pure, e, Lineage.allColumns, mk_data, Lineage.empty, List.nil_append]
-  have : (List.map (fun x => ({ schema := h.table.schema, table := h.table.name, col := some x.2 } : SrcCol)) cs).length
-      ≠ (number R 1).length := by
-    have hl : ∀ (R : Rel) (i : Nat), (number R i).length = R.length := by
-      intro R; induction R with
-      | nil => intro i; rfl
-      | cons p r ih => intro i; obtain ⟨a, b⟩ := p; simp [number, ih]
-    simpa [hl] using hlen
-  have this' : ¬ cs.length = (number R 1).length := by simpa using this
-  simp [this']
-
 theorem mk_idxSrc : ∀ (data : List (SCol × List SrcCol)) (l : Lineage),
     (mkLineage data l).idxSrc = data.foldl (fun m p => dictSet m p.1.idx p.2) l.idxSrc
   | [], l => rfl
@@ -224,41 +205,33 @@ theorem mapM_positions (L : Lineage) (R : Rel) (hL : ∀ k p, R[k]? = some p →
       simp only [List.zipIdx_cons, List.mapM_cons, hf (d, 1 + k) p.2 (hL k p hk), bind, Except.bind, pure, Except.pure, List.zipWith_cons_cons]
       rw [show 1 + k + 1 = 1 + (k + 1) by omega, ih, hrest]
 
-theorem zipWith_cols (sc : Option String) (tb : String) : ∀ (cs : List (Option String × String)) (R : Rel), cs.length = R.length →
-    (List.zipWith (fun c r => (({ schema := sc, table := tb, col := some c.2 } : SrcCol), r.2)) cs R).map (fun p => p.1.col)
-      = (cs.map (·.2)).map some
-  | [], _, _ => by simp
-  | c :: r, [], h => by simp at h
-  | c :: r, p :: rest, h => by
-    simp only [List.zipWith_cons_cons, List.map_cons]
-    rw [zipWith_cols sc tb r rest (by simpa using h)]
+theorem number_length : ∀ (R : Rel) (i : Nat), (number R i).length = R.length
+  | [], _ => rfl
+  | (a, b) :: r, i => by simp [number, number_length r]
 
-/-- **INSERT … SELECT with an explicit column list**: the i-th listed target column receives exactly the sources of the i-th output
-column of the SELECT (target column names pairwise distinct) -/
-theorem insert_pairing_ok (cat : Cat) (h : InsertHead) (cs : List (Option String × String)) (hc : h.columns = some cs)
-    (q : Query) (R : Rel) (st' : St)
-    (hsel : selectLineage cat (fuelFor (setWiths h.withs q)) (setWiths h.withs q) {} = .ok (mkLineage (number R 1) Lineage.empty, st'))
-    (hlen : cs.length = R.length) (hnd : (cs.map (·.2)).Nodup) :
-    insertLineage cat h q {} = .ok (List.zipWith (fun c r => (({ schema := h.table.schema, table := h.table.name, col := some c.2 } : SrcCol), r.2)) cs R, st') := by
-  have hl : ∀ (R : Rel) (i : Nat), (number R i).length = R.length := by
-    intro R; induction R with
-    | nil => intro i; rfl
-    | cons p r ih => intro i; obtain ⟨a, b⟩ := p; simp [number, ih]
-  simp only [insertLineage, hc, bind, Except.bind, pure, Except.pure, hsel, Lineage.allColumns, mk_data, Lineage.empty, List.nil_append]
-  have hlen' : ((List.map (fun x => ({ schema := h.table.schema, table := h.table.name, col := some x.2 } : SrcCol)) cs).length
-      != (number R 1).length) = false := by simp [hl, hlen]
+/-- **pairing by position**: the i-th target column receives exactly the sources of the i-th output column (target column names
+pairwise distinct: the result object is keyed by the target column's name) -/
+theorem pairUp_ok (R : Rel) (down : List SrcCol) (st : St) (hlen : down.length = R.length) (hnd : (down.map (·.col)).Nodup) :
+    pairUp (mkLineage (number R 1) Lineage.empty) down st = .ok (List.zipWith (fun d r => (d, r.2)) down R, st) := by
+  simp only [pairUp, Lineage.allColumns, mk_data, Lineage.empty, List.nil_append, bind, Except.bind, pure, Except.pure]
+  have hlen' : (down.length != (number R 1).length) = false := by simp [number_length, hlen]
   simp only [hlen', Bool.false_eq_true, if_false]
   have hm := fun f hf => mapM_positions (mkLineage (number R 1) Lineage.empty) R (fun k p hk => srcByIdx_number R 1 k p hk) f hf
-    (cs.map (fun x => ({ schema := h.table.schema, table := h.table.name, col := some x.2 } : SrcCol))) 0 (by simp [hlen])
-  simp only [Nat.add_zero, List.drop_zero, List.zipWith_map_left, Lineage.empty] at hm
+    down 0 (by simp [hlen])
+  simp only [Nat.add_zero, List.drop_zero, Lineage.empty] at hm
   rw [hm _ (fun x v hv => by simp only [Int.ofNat_eq_natCast] at hv; simp [hv])]
   simp only
-  generalize hdef : List.zipWith (fun c r => (({ schema := h.table.schema, table := h.table.name, col := some c.2 } : SrcCol), r.2)) cs R = data
-  have hkeys : (data.map (fun p => p.1.col)).Nodup := by
-    have : data.map (fun p => p.1.col) = (cs.map (·.2)).map some := by
-      rw [← hdef]; exact zipWith_cols _ _ cs R hlen
-    rw [this]
-    exact nodup_map_some _ hnd
+  generalize hdef : List.zipWith (fun d (r : String × List SrcCol) => (d, r.2)) down R = data
+  have hcols : data.map (fun p => p.1.col) = down.map (·.col) := by
+    rw [← hdef]
+    clear hm hdef hnd hlen'
+    induction down generalizing R with
+    | nil => simp
+    | cons d r ih =>
+      cases R with
+      | nil => simp at hlen
+      | cons p rest => simp [ih rest (by simpa using hlen)]
+  have hkeys : (data.map (fun p => p.1.col)).Nodup := by rw [hcols]; exact hnd
   have hfold : data.foldl (fun m p => dictSet m p.1.col p.2) ([] : List (Option String × List SrcCol))
       = data.map (fun p => (p.1.col, p.2)) := by
     have key : data.foldl (fun m p => dictSet m p.1.col p.2) ([] : List (Option String × List SrcCol))
@@ -277,6 +250,32 @@ theorem insert_pairing_ok (cat : Cat) (h : InsertHead) (cs : List (Option String
     exact List.map_congr_left this
   rw [hmap]
 
+/-- a different number of columns is refused -/
+theorem pairUp_arity (R : Rel) (down : List SrcCol) (st : St) (h : down.length ≠ R.length) :
+    pairUp (mkLineage (number R 1) Lineage.empty) down st = .error .analyzer := by
+  have : (down.length != (number R 1).length) = true := by simpa [number_length] using h
+  simp [pairUp, Lineage.allColumns, mk_data, Lineage.empty, this]
+
+theorem nodup_map_some' {α : Type} (l : List α) (h : l.Nodup) : (l.map some).Nodup := nodup_map_some l h
+
+/-- **INSERT … SELECT with an explicit column list**: the i-th listed target column receives exactly the sources of the i-th output
+column of the SELECT (target column names pairwise distinct) -/
+theorem insert_pairing_ok (cat : Cat) (h : InsertHead) (cs : List (Option String × String)) (hc : h.columns = some cs)
+    (q : Query) (R : Rel) (st' : St)
+    (hsel : selectLineage cat (fuelFor (setWiths h.withs q)) (setWiths h.withs q) {} = .ok (mkLineage (number R 1) Lineage.empty, st'))
+    (hlen : cs.length = R.length) (hnd : (cs.map (·.2)).Nodup) :
+    insertLineage cat h q {} = .ok (List.zipWith (fun c r => (({ schema := h.table.schema, table := h.table.name, col := some c.2 } : SrcCol), r.2)) cs R, st') := by
+  simp only [insertLineage, hc, bind, Except.bind, pure, Except.pure, hsel]
+  rw [pairUp_ok R _ st' (by simpa using hlen) (by simpa [List.map_map, Function.comp_def] using nodup_map_some _ hnd)]
+  simp [List.zipWith_map_left]
+
+/-- … with a different number of columns it is refused -/
+theorem insert_pairing (cat : Cat) (h : InsertHead) (cs : List (Option String × String)) (hc : h.columns = some cs)
+    (q : Query) (R : Rel) (st' : St)
+    (hsel : selectLineage cat (fuelFor (setWiths h.withs q)) (setWiths h.withs q) {} = .ok (mkLineage (number R 1) Lineage.empty, st'))
+    (hlen : cs.length ≠ R.length) : insertLineage cat h q {} = .error .analyzer := by
+  simp only [insertLineage, hc, bind, Except.bind, pure, Except.pure, hsel]
+  exact pairUp_arity R _ st' (by simpa using hlen)
 
 /-! ## instances (kernel-evaluated): the specification and the model on concrete (catalogue, query) pairs -/
 
